@@ -511,3 +511,286 @@ Definition spec_JettonBridgePrices : tlayout :=
     [ "bridge_burn_fee" ::: FCoins; "bridge_mint_fee" ::: FCoins; "wallet_min_tons_for_storage" ::: FCoins;
       "wallet_gas_consumption" ::: FCoins; "minter_min_tons_for_storage" ::: FCoins;
       "discover_gas_consumption" ::: FCoins ].
+
+(* ---- constraints, aliases, wrappers ---- *)
+Local Notation "a '<=!' b" := (IGuard GLe (GName a) (GName b)) (at level 60).
+Local Notation "a '>=!' b" := (IGuard GGe (GName a) (GName b)) (at level 60).
+(* _ X = T: the parser returns what X's parser returns *)
+Local Notation same_as T := (mkType TagBitwise [mkCtor [] RSame [ "_" ::: ty T ]]).
+
+(* param_limits#c3 underload:# soft_limit:# { underload <= soft_limit }
+     hard_limit:# { soft_limit <= hard_limit } = ParamLimits; *)
+Definition spec_ParamLimits : tlayout :=
+  mkType (TagChunk (CkBytes 1))
+    [ mkCtor (hex "c3") (obj "ParamLimits")
+        [ "underload" ::: FUint 32; "soft_limit" ::: FUint 32; "underload" <=! "soft_limit";
+          "hard_limit" ::: FUint 32; "soft_limit" <=! "hard_limit" ] ].
+
+(* _ max_validators:(## 16) max_main_validators:(## 16) min_validators:(## 16)
+     { max_validators >= max_main_validators } { max_main_validators >= min_validators }
+     { min_validators >= 1 } = ConfigParam 16; *)
+Definition spec_ConfigParam16 : tlayout :=
+  record "ConfigParam16"
+    [ "max_validators" ::: FUint 16; "max_main_validators" ::: FUint 16; "min_validators" ::: FUint 16;
+      "max_validators" >=! "max_main_validators"; "max_main_validators" >=! "min_validators";
+      IGuard GGe (GName "min_validators") (GNum 1) ].
+
+(* _ config_addr:bits256 = ConfigParam 0;          _ elector_addr:bits256 = ConfigParam 1;
+   _ minter_addr:bits256 = ConfigParam 2;          _ fee_collector_addr:bits256 = ConfigParam 3;
+   _ dns_root_addr:bits256 = ConfigParam 4;
+   (the classes keep the address twice: as bytes and as <name>_hex) *)
+Definition spec_ConfigParam0 : tlayout :=
+  record "ConfigParam0" [ INamedHex "config_addr" "config_addr_hex" 32 ].
+Definition spec_ConfigParam1 : tlayout :=
+  record "ConfigParam1" [ INamedHex "elector_addr" "elector_addr_hex" 32 ].
+Definition spec_ConfigParam2 : tlayout :=
+  record "ConfigParam2" [ INamedHex "minter_addr" "minter_addr_hex" 32 ].
+Definition spec_ConfigParam3 : tlayout :=
+  record "ConfigParam3" [ INamedHex "fee_collector_addr" "fee_collector_addr_hex" 32 ].
+Definition spec_ConfigParam4 : tlayout :=
+  record "ConfigParam4" [ INamedHex "dns_root_addr" "dns_root_addr_hex" 32 ].
+
+(* _ GlobalVersion = ConfigParam 8;                _ ConfigVotingSetup = ConfigParam 11;
+   _ ComplaintPricing = ConfigParam 13;            _ BlockCreateFees = ConfigParam 14;
+   config_mc_gas_prices#_ GasLimitsPrices = ConfigParam 20;
+   config_gas_prices#_ GasLimitsPrices = ConfigParam 21;
+   config_mc_block_limits#_ BlockLimits = ConfigParam 22;
+   config_block_limits#_ BlockLimits = ConfigParam 23;
+   config_mc_fwd_prices#_ MsgForwardPrices = ConfigParam 24;
+   config_fwd_prices#_ MsgForwardPrices = ConfigParam 25;
+   _ CatchainConfig = ConfigParam 28;              _ ConsensusConfig = ConfigParam 29;
+   _ SuspendedAddressList = ConfigParam 44;
+   _ OracleBridgeParams = ConfigParam 71;  _ OracleBridgeParams = ConfigParam 72;
+   _ OracleBridgeParams = ConfigParam 73;
+   _ JettonBridgeParams = ConfigParam 79;  _ JettonBridgeParams = ConfigParam 81;
+   _ JettonBridgeParams = ConfigParam 82; *)
+Definition spec_ConfigParam8 : tlayout := same_as "GlobalVersion".
+Definition spec_ConfigParam11 : tlayout := same_as "ConfigVotingSetup".
+Definition spec_ConfigParam13 : tlayout := same_as "ComplaintPricing".
+Definition spec_ConfigParam14 : tlayout := same_as "BlockCreateFees".
+Definition spec_ConfigParam20 : tlayout := same_as "GasLimitsPrices".
+Definition spec_ConfigParam21 : tlayout := same_as "GasLimitsPrices".
+Definition spec_ConfigParam22 : tlayout := same_as "BlockLimits".
+Definition spec_ConfigParam23 : tlayout := same_as "BlockLimits".
+Definition spec_ConfigParam24 : tlayout := same_as "MsgForwardPrices".
+Definition spec_ConfigParam25 : tlayout := same_as "MsgForwardPrices".
+Definition spec_ConfigParam28 : tlayout := same_as "CatchainConfig".
+Definition spec_ConfigParam29 : tlayout := same_as "ConsensusConfig".
+Definition spec_ConfigParam44 : tlayout := same_as "SuspendedAddressList".
+Definition spec_ConfigParam71 : tlayout := same_as "OracleBridgeParams".
+Definition spec_ConfigParam72 : tlayout := same_as "OracleBridgeParams".
+Definition spec_ConfigParam73 : tlayout := same_as "OracleBridgeParams".
+Definition spec_ConfigParam79 : tlayout := same_as "JettonBridgeParams".
+Definition spec_ConfigParam81 : tlayout := same_as "JettonBridgeParams".
+Definition spec_ConfigParam82 : tlayout := same_as "JettonBridgeParams".
+
+(* _ workchains:(HashmapE 32 WorkchainDescr) = ConfigParam 12; *)
+Definition spec_ConfigParam12 : tlayout :=
+  record "ConfigParam12" [ "workchains" ::: FDict 32 (ty "WorkchainDescr") ].
+
+(* _ fundamental_smc_addr:(HashmapE 256 True) = ConfigParam 31; *)
+Definition spec_ConfigParam31 : tlayout :=
+  record "ConfigParam31" [ "fundamental_smc_addr" ::: FDict 256 (FConst (CBool true)) ].
+
+(* suspended_address_list#00 addresses:(HashmapE 288 Unit) suspended_until:uint32 = SuspendedAddressList; *)
+Definition spec_SuspendedAddressList : tlayout :=
+  mkType (TagChunk (CkBytes 1))
+    [ mkCtor (hex "00") (obj "SuspendedAddressList")
+        [ "addresses" ::: FDict 288 (FConst CNone); "suspended_until" ::: FUint 32 ] ].
+
+(* oracle_bridge_params#_ bridge_address:bits256 oracle_mutlisig_address:bits256
+     oracles:(HashmapE 256 uint256) external_chain_address:bits256 = OracleBridgeParams; *)
+Definition spec_OracleBridgeParams : tlayout :=
+  record "OracleBridgeParams"
+    [ INamedHex "bridge_address" "bridge_address_hex" 32;
+      INamedHex "oracle_mutlisig_address" "oracle_mutlisig_address_hex" 32;
+      "oracles" ::: FDict 256 (FUint 256); "external_chain_address_hex" ::: FBytesHex 32 ].
+
+(* jetton_bridge_params_v0#00 bridge_address:bits256 oracles_address:bits256
+     oracles:(HashmapE 256 uint256) state_flags:uint8 burn_bridge_fee:Coins = JettonBridgeParams;
+   jetton_bridge_params_v1#01 bridge_address:bits256 oracles_address:bits256
+     oracles:(HashmapE 256 uint256) state_flags:uint8 prices:^JettonBridgePrices
+     external_chain_address:bits256 = JettonBridgeParams;
+   FINDING: for jetton_bridge_params_v1 the library does not read external_chain_address (the attribute is
+   None and 256 bits are left in the slice): impl_JettonBridgeParams differs from the compilation of this
+   layout. *)
+Definition spec_JettonBridgeParams : tlayout :=
+  mkType (TagChunk (CkBytes 1))
+    [ mkCtor (hex "00")
+        (RObj "JettonBridgeParams" [("external_chain_address", CNone); ("prices", CNone)])
+        [ INamedHex "bridge_address" "bridge_address_hex" 32;
+          INamedHex "oracles_address" "oracles_address_hex" 32;
+          "oracles" ::: FDict 256 (FUint 256); "state_flags" ::: FUint 8; "burn_bridge_fee" ::: FCoins ];
+      mkCtor (hex "01") (RObj "JettonBridgeParams" [("burn_bridge_fee", CNone)])
+        [ INamedHex "bridge_address" "bridge_address_hex" 32;
+          INamedHex "oracles_address" "oracles_address_hex" 32;
+          "oracles" ::: FDict 256 (FUint 256); "state_flags" ::: FUint 8;
+          "prices" ::: ^"JettonBridgePrices"; "external_chain_address" ::: FBytes 32 ] ].
+
+(* wfmt_ext#0 min_addr_len:(## 12) max_addr_len:(## 12) addr_len_step:(## 12)
+     { min_addr_len >= 64 } { min_addr_len <= max_addr_len } { max_addr_len <= 1023 }
+     { addr_len_step <= 1023 } workchain_type_id:(## 32) { workchain_type_id >= 1 } = WorkchainFormat 0;
+   (the constraints are placed where the library checks them: after the last field; a constraint
+   occupies no bits)
+   FINDING: as for WorkchainFormat 1, the library accepts both tags #0 and #1. *)
+Definition spec_WorkchainFormat_0 : tlayout :=
+  mkType (TagChunk (CkUint 4))
+    [ mkCtor (hex "0")
+        (RObj "WorkchainFormat" [("type_", CStr "wfmt_ext"); ("vm_mode", CNone); ("vm_version", CNone)])
+        [ "min_addr_len" ::: FUint 12; "max_addr_len" ::: FUint 12; "addr_len_step" ::: FUint 12;
+          "workchain_type_id" ::: FUint 32;
+          IGuard GGe (GName "min_addr_len") (GNum 64); "min_addr_len" <=! "max_addr_len";
+          IGuard GLe (GName "max_addr_len") (GNum 1023); IGuard GLe (GName "addr_len_step") (GNum 1023);
+          IGuard GGe (GName "workchain_type_id") (GNum 1) ] ].
+
+(* ---- contract data (pytoniq_core/tlb/custom/*.py; the schema lines are the class docstrings) ---- *)
+
+(* wallet_v3_data#_ seqno:uint32 wallet_id:uint32 public_key:bits256 = WalletV3Data; *)
+Definition spec_WalletV3Data : tlayout :=
+  record "WalletV3Data" [ "seqno" ::: FUint 32; "wallet_id" ::: FUint 32; "public_key" ::: FBytes 32 ].
+
+(* wallet_v4_data#_ seqno:uint32 wallet_id:uint32 public_key:bits256 plugins:(Maybe ^Cell) = WalletV4Data; *)
+Definition spec_WalletV4Data : tlayout :=
+  record "WalletV4Data"
+    [ "seqno" ::: FUint 32; "wallet_id" ::: FUint 32; "public_key" ::: FBytes 32; "plugins" ::: FMaybeCell ].
+
+(* highload_wallet_data#_ wallet_id:uint32 last_cleaned:uint64 public_key:bits256
+     old_queries:(HashmapE 64 WalletMessage) = HighloadWalletData; *)
+Definition spec_HighloadWalletData : tlayout :=
+  record "HighloadWalletData"
+    [ "wallet_id" ::: FUint 32; "last_cleaned" ::: FUint 64; "public_key" ::: FBytes 32;
+      "old_queries" ::: FDict 64 (ty "WalletMessage") ].
+
+(* nft_item_data#_ index:uint64 collection_address:Address owner_address:Address content:^Cell
+     = NftItemData; *)
+Definition spec_NftItemData : tlayout :=
+  record "NftItemData"
+    [ "index" ::: FUint 64; "collection_address" ::: FAddr; "owner_address" ::: FAddr; "content" ::: FCell ].
+
+(* nft_item_sale_fees#_ marketplace_fee_address:Address marketplace_fee:Grams royalty_address:Address
+     royalty_amount:Grams = NftItemSaleFees; *)
+Definition spec_NftItemSaleFees : tlayout :=
+  record "NftItemSaleFees"
+    [ "marketplace_fee_address" ::: FAddr; "marketplace_fee" ::: FCoins; "royalty_address" ::: FAddr;
+      "royalty_amount" ::: FCoins ].
+
+(* nft_item_sale_data#_ is_complete:bool created_at:uint32 marketplace_address:Address
+     nft_address:Address nft_owner_address:Address full_price:grams fees_cell:^NftItemSaleFees
+     can_deploy_by_external:bool = NftItemSaleData; *)
+Definition spec_NftItemSaleData : tlayout :=
+  record "NftItemSaleData"
+    [ "is_complete" ::: FBool; "created_at" ::: FUint 32; "marketplace_address" ::: FAddr;
+      "nft_address" ::: FAddr; "nft_owner_address" ::: FAddr; "full_price" ::: FCoins;
+      "fees_cell" ::: ^"NftItemSaleFees"; "can_deploy_by_external" ::: FBool ].
+
+(* ------------------------------------------------------------------------------------------------ *)
+(* The table: every layout above whose generated tree equals its compilation (Proofs/TlbProofs.v).
+   NOT in the table (findings: the generated tree differs from the compilation of the faithful layout):
+   - spec_WorkchainFormat_0, spec_WorkchainFormat_1: the library accepts both tags #0 and #1 for either
+     constructor (`if tag not in (0, 1)` in WorkchainFormat.deserialize);
+   - spec_JettonBridgeParams: external_chain_address:bits256 of jetton_bridge_params_v1 is not read. *)
+Definition spec_table : stable :=
+  [ ("AccStatusChange", [], spec_AccStatusChange);
+    ("AccountStatus", [], spec_AccountStatus);
+    ("ComputeSkipReason", [], spec_ComputeSkipReason);
+    ("TickTock", [], spec_TickTock);
+    ("ExtraCurrencyCollection", [], spec_ExtraCurrencyCollection);
+    ("CurrencyCollection", [], spec_CurrencyCollection);
+    ("StorageUsed", [], spec_StorageUsed);
+    ("StorageUsedShort", [], spec_StorageUsedShort);
+    ("StorageInfo", [], spec_StorageInfo);
+    ("TrStoragePhase", [], spec_TrStoragePhase);
+    ("TrCreditPhase", [], spec_TrCreditPhase);
+    ("TrComputePhase", [], spec_TrComputePhase);
+    ("TrBouncePhase", [], spec_TrBouncePhase);
+    ("TrActionPhase", [], spec_TrActionPhase);
+    ("ExtBlkRef", [], spec_ExtBlkRef);
+    ("BlkMasterInfo", [], spec_BlkMasterInfo);
+    ("GlobalVersion", [], spec_GlobalVersion);
+    ("ShardIdent", [], spec_ShardIdent);
+    ("FutureSplitMerge", [], spec_FutureSplitMerge);
+    ("SplitMergeInfo", [], spec_SplitMergeInfo);
+    ("HashUpdate", [], spec_HashUpdate);
+    ("IntermediateAddress", [], spec_IntermediateAddress);
+    ("MsgMetadata", [], spec_MsgMetadata);
+    ("InternalMsgInfo", [], spec_InternalMsgInfo);
+    ("ExternalMsgInfo", [], spec_ExternalMsgInfo);
+    ("ExternalOutMsgInfo", [], spec_ExternalOutMsgInfo);
+    ("StateInit", [], spec_StateInit);
+    ("SigPubKey", [], spec_SigPubKey);
+    ("CatchainConfig", [], spec_CatchainConfig);
+    ("ValidatorDescr", [], spec_ValidatorDescr);
+    ("TransactionOrdinary", [], spec_TransactionOrdinary);
+    ("TransactionStorage", [], spec_TransactionStorage);
+    ("TransactionTickTock", [], spec_TransactionTickTock);
+    ("TransactionSplitPrepare", [], spec_TransactionSplitPrepare);
+    ("TransactionSplitInstall", [], spec_TransactionSplitInstall);
+    ("TransactionMergePrepare", [], spec_TransactionMergePrepare);
+    ("TransactionMergeInstall", [], spec_TransactionMergeInstall);
+    ("AccountState", [], spec_AccountState);
+    ("AccountStorage", [], spec_AccountStorage);
+    ("Account", [], spec_Account);
+    ("DepthBalanceInfo", [], spec_DepthBalanceInfo);
+    ("ImportFees", [], spec_ImportFees);
+    ("LibRef", [], spec_LibRef);
+    ("MsgEnvelope", [], spec_MsgEnvelope);
+    ("ValidatorInfo", [], spec_ValidatorInfo);
+    ("KeyMaxLt", [], spec_KeyMaxLt);
+    ("KeyExtBlkRef", [], spec_KeyExtBlkRef);
+    ("Counters", [], spec_Counters);
+    ("CreatorStats", [], spec_CreatorStats);
+    ("ConfigParam6", [], spec_ConfigParam6);
+    ("ConfigParam7", [], spec_ConfigParam7);
+    ("ConfigProposalSetup", [], spec_ConfigProposalSetup);
+    ("ConfigVotingSetup", [], spec_ConfigVotingSetup);
+    ("WcSplitMergeTimings", [], spec_WcSplitMergeTimings);
+    ("ComplaintPricing", [], spec_ComplaintPricing);
+    ("BlockCreateFees", [], spec_BlockCreateFees);
+    ("ConfigParam15", [], spec_ConfigParam15);
+    ("ConfigParam17", [], spec_ConfigParam17);
+    ("StoragePrices", [], spec_StoragePrices);
+    ("BlockLimits", [], spec_BlockLimits);
+    ("MsgForwardPrices", [], spec_MsgForwardPrices);
+    ("ConfigParam32", [], spec_ConfigParam32);
+    ("ConfigParam33", [], spec_ConfigParam33);
+    ("ConfigParam34", [], spec_ConfigParam34);
+    ("ConfigParam35", [], spec_ConfigParam35);
+    ("ConfigParam36", [], spec_ConfigParam36);
+    ("ConfigParam37", [], spec_ConfigParam37);
+    ("JettonBridgePrices", [], spec_JettonBridgePrices);
+    ("ParamLimits", [], spec_ParamLimits);
+    ("ConfigParam16", [], spec_ConfigParam16);
+    ("ConfigParam0", [], spec_ConfigParam0);
+    ("ConfigParam1", [], spec_ConfigParam1);
+    ("ConfigParam2", [], spec_ConfigParam2);
+    ("ConfigParam3", [], spec_ConfigParam3);
+    ("ConfigParam4", [], spec_ConfigParam4);
+    ("ConfigParam8", [], spec_ConfigParam8);
+    ("ConfigParam11", [], spec_ConfigParam11);
+    ("ConfigParam12", [], spec_ConfigParam12);
+    ("ConfigParam13", [], spec_ConfigParam13);
+    ("ConfigParam14", [], spec_ConfigParam14);
+    ("ConfigParam20", [], spec_ConfigParam20);
+    ("ConfigParam21", [], spec_ConfigParam21);
+    ("ConfigParam22", [], spec_ConfigParam22);
+    ("ConfigParam23", [], spec_ConfigParam23);
+    ("ConfigParam24", [], spec_ConfigParam24);
+    ("ConfigParam25", [], spec_ConfigParam25);
+    ("ConfigParam28", [], spec_ConfigParam28);
+    ("ConfigParam29", [], spec_ConfigParam29);
+    ("ConfigParam31", [], spec_ConfigParam31);
+    ("ConfigParam44", [], spec_ConfigParam44);
+    ("ConfigParam71", [], spec_ConfigParam71);
+    ("ConfigParam72", [], spec_ConfigParam72);
+    ("ConfigParam73", [], spec_ConfigParam73);
+    ("ConfigParam79", [], spec_ConfigParam79);
+    ("ConfigParam81", [], spec_ConfigParam81);
+    ("ConfigParam82", [], spec_ConfigParam82);
+    ("SuspendedAddressList", [], spec_SuspendedAddressList);
+    ("OracleBridgeParams", [], spec_OracleBridgeParams);
+    ("WalletV3Data", [], spec_WalletV3Data);
+    ("WalletV4Data", [], spec_WalletV4Data);
+    ("HighloadWalletData", [], spec_HighloadWalletData);
+    ("NftItemData", [], spec_NftItemData);
+    ("NftItemSaleFees", [], spec_NftItemSaleFees);
+    ("NftItemSaleData", [], spec_NftItemSaleData) ].
